@@ -56,6 +56,18 @@ func HarnessC11Bind() {
 	if err != nil {
 		panic(err)
 	}
+	// placeholder numbers outside 1..2147483647 are no placeholders: such a text must be
+	// rejected, whatever arguments come with it (never run with a wrapped-around number)
+	if verifBool("placeholder-out-of-range") {
+		text := []string{`a = $4294967297`, `a = $2147483648`, `a = $0`, `a = $18446744073709551617`}[verifChoice("which", 4)]
+		_, perr := c.Prepare(text)
+		verifAssert(perr != nil, "C11: a placeholder number outside 1..2147483647 must be rejected")
+		_, qerr := c.QueryContext(drvCtx, text, []sqldriver.NamedValue{{Ordinal: 1, Value: "x"}})
+		verifAssert(qerr != nil, "C11: a query with a placeholder number outside 1..2147483647 was executed")
+		c.Close()
+		verifReach("end")
+		return
+	}
 	t := c11Templates[verifChoice("template", len(c11Templates))]
 	if verifBool("direct") {
 		// direct Query path: the argument count is whatever the caller passes
